@@ -10,9 +10,13 @@ def check(run):
     tot = collections.Counter()
     for cfg, absv, name in (("Session_Hist.cfg", 9, "session_abs"), ("Session_Hist_noabs.cfg", 0, "session_noabs"),
                             # one session kept alive by a single client across its idle and absolute deadlines (store API: Get, Get again, Save)
-                            ("Session_Hist_life.cfg", 9, "session_life")):
+                            ("Session_Hist_life.cfg", 9, "session_life"),
+                            # every request of the one client obtains its session from the store twice
+                            ("Session_Hist_twoget.cfg", 9, "session_twoget"),
+                            # background tasks on the store API (GetByID, Set, Save) between a client's requests, time passing freely
+                            ("Session_Hist_byid.cfg", 9, "session_byid")):
         n, s = generic.gen_replay(run, "Session", cfg, "TestC15", name, env={"VERIF_ABS": absv}, workers=1, heap="4g",
-                                  simulate="num=%d" % nh, depth=40, tag="HIST", dedupe=True,
+                                  simulate="num=%d" % (nh * 2 if name == "session_life" else nh), depth=40, tag="HIST", dedupe=True,
                                   confirm_case=lambda v: {"hist": v["history"], "mode": v["mode"]})
         if s["histories"] != n:
             raise core.Inconclusive("driver did not consume every history")
